@@ -149,6 +149,11 @@ impl CommandLineArgument {
     }
 
     pub fn set_environment_variable(argument: &CommandLineArgument, value: String) {
+        // env::set_var panics on a value that contains a NUL character
+        if value.contains('\0') {
+            eprintln!("    Unable to set env variable '{}', the value contains a NUL character", argument.environment_variable);
+            return;
+        }
         env::set_var(&argument.environment_variable, &value);
         println!("    Set env variable '{}' to value '{}'", argument.environment_variable, &value);
     }
